@@ -41,6 +41,8 @@ def do_call(obj, call):
             elif o[0] == "tell":
                 r = obj.tell()
         return r
+    if op in ("chain", "walk") or (op == "open" and hasattr(obj, "kind")):
+        return obj.run()
     if op == "paths":
         return obj.paths()
     if op == "members":
@@ -75,6 +77,31 @@ def main():
         print("REPLAY-ERROR could not set up")
         return 2
     exp = desc.get("expect", {})
+    inflated = [0]
+    if "max_inflate" in exp:
+        # environment instrumentation (not the code under test): record how much any zlib call produces
+        import zlib
+
+        real_d, real_o = zlib.decompress, zlib.decompressobj
+
+        def dec(data, *a, **kw):
+            out = real_d(data, *a, **kw)
+            inflated[0] = max(inflated[0], len(out))
+            return out
+
+        class Obj:
+            def __init__(self, *a, **kw):
+                self._o = real_o(*a, **kw)
+
+            def decompress(self, data, max_length=0):
+                out = self._o.decompress(data, max_length)
+                inflated[0] = max(inflated[0], len(out))
+                return out
+
+            def __getattr__(self, k):
+                return getattr(self._o, k)
+
+        zlib.decompress, zlib.decompressobj = dec, Obj
     try:
         obj = opener(files, opaque, desc.get("params", {}))
         res = do_call(obj, desc["call"])
@@ -83,6 +110,14 @@ def main():
         return 2
     except Exception as ex:  # noqa: BLE001 - the real code may raise anything
         got = type(ex).__name__
+        if "max_inflate" in exp:
+            ok = inflated[0] <= exp["max_inflate"]
+            print(f"{'MATCH' if ok else 'MISMATCH'} largest inflate output {inflated[0]} (bound {exp['max_inflate']}); raised {got}")
+            return 0 if ok else 1
+        if exp.get("terminates"):
+            ok = not isinstance(ex, (TimeoutError, RecursionError, MemoryError))
+            print(f"{'MATCH' if ok else 'MISMATCH'} raised {got}: {str(ex)[:200]}")
+            return 0 if ok else 1
         if "raises" in exp:
             ok = exp["raises"] in ("*", got) or got in exp["raises"].split("|")
             print(f"{'MATCH' if ok else 'MISMATCH'} raised {got}: {ex}")
@@ -92,6 +127,14 @@ def main():
     if "raises" in exp:
         print(f"MISMATCH returned normally (expected {exp['raises']})")
         return 1
+    if "max_inflate" in exp:
+        ok = inflated[0] <= exp["max_inflate"]
+        print(f"{'MATCH' if ok else 'MISMATCH'} largest inflate output {inflated[0]} (bound {exp['max_inflate']})")
+        return 0 if ok else 1
+    if exp.get("terminates"):
+        ok = res is True
+        print(f"{'MATCH' if ok else 'MISMATCH'} terminated within bounds: {res}")
+        return 0 if ok else 1
     if exp.get("paths"):
         ok = not res["bad_modes"] and not res["changed"]
         print(f"{'MATCH' if ok else 'MISMATCH'} open modes {res['bad_modes']} changed files {res['changed']}")
